@@ -76,6 +76,7 @@ def report(ctx, findings, source):
     model = [(p, fl.get("id"), ln.get("k"), x) for fl, ln, bad, x in findings for p in bad if not p.startswith(PREFIX)]
     if model:
         raise core.Infra("harness/specification binding broken (%s): %s" % (source, json.dumps(model[:5])[:1500]))
+    per_sig = ctx.extra.setdefault("_per_sig", {})
     for fl, ln, bad, x in findings:
         fmt = fl["f"]["fmt"]
         for p in bad:
@@ -103,7 +104,9 @@ def report(ctx, findings, source):
                     (": " + out["msg"][:90]) if out.get("msg") else "")
                 if ln["at"] != fl["len"]:
                     case["at"] = ln["at"]
-            ctx.violation(sig, what, case)
+            per_sig[sig] = per_sig.get(sig, 0) + 1
+            if per_sig[sig] <= 3:              # a replay file for the first three occurrences of a signature
+                ctx.violation(sig, what, case)
 
 
 def run_cases(ctx, vh, name, cases, maxcuts=0, only=-1):
@@ -199,6 +202,7 @@ def run(ctx):
     if not quick:
         selftest(ctx, vh, cases)
 
+    ctx.extra["rejections_per_signature"] = ctx.extra.pop("_per_sig", {})
     missing = [f for f in FORMATS if ctx.extra["lines_per_format"].get(f, 0) == 0]
     oc = ctx.extra["outcomes"]
     if missing or not oc.get("dec:ok") or not oc.get("cut:error") or not ctx.extra.get("node_decodes_judged") \
